@@ -999,6 +999,7 @@ fn with_coincidences(cases: Vec<Case>, rng: &mut Rng) -> Vec<Case> {
     for c in cases {
         let eligible = c.len() > 2
             && c[0].starts_with("new 1 ")
+            && !c[0].contains(" T=") // exact rationals only (machine integers and floats have their own workloads)
             && c[1..].iter().all(|l| {
                 let t: Vec<&str> = l.split(' ').collect();
                 match t[0] {
@@ -1021,15 +1022,18 @@ fn with_coincidences(cases: Vec<Case>, rng: &mut Rng) -> Vec<Case> {
             }
             let mut line = l.clone();
             if l.starts_with("f ") && !ins.is_empty() && rng.chance(2, 5) {
-                let cand = match rng.below(4) {
+                let (choice, pick, k) = (rng.below(4), rng.below(ins.len() as u64) as usize, rng.range(1, 4) as usize);
+                // the exact rationals of the harness panic on i128 overflow: such a candidate is simply not used
+                let cand = std::panic::catch_unwind(std::panic::AssertUnwindSafe(|| match choice {
                     0 => outs.last().copied(),
-                    1 => Some(ins[rng.below(ins.len() as u64) as usize]),
+                    1 => Some(ins[pick]),
                     2 if outs.len() >= 2 => Some(outs[outs.len() - 1] + (outs[outs.len() - 1] - outs[outs.len() - 2])),
                     _ => {
-                        let k = (rng.range(1, 4) as usize).min(ins.len());
+                        let k = k.min(ins.len());
                         Some(ins[ins.len() - k..].iter().fold(Q::int(0), |a, b| a + *b))
                     }
-                };
+                }))
+                .unwrap_or(None);
                 if let Some(x) = cand {
                     line = format!("f 1 {}", x);
                 }
